@@ -224,8 +224,8 @@ def WF : Expr → Prop
   | uop _ r s _ _ => 0 < s ∧ WF r ∧ s = r.size
   | ptr b sg _ s _ => 0 < s ∧ WF b ∧ WFOpt sg ∧ s = b.size
   | mem a s _ _ ms => WF a ∧ 0 < s ∧ WFMods ms
-  | vec l s _ => 0 < s ∧ WFList l s
-  | vecw l s _ => 0 < s ∧ WFList l s
+  | vec l s _ => 0 < s ∧ l ≠ [] ∧ WFList l s
+  | vecw l s _ => 0 < s ∧ l ≠ [] ∧ WFList l s
   | top s _ => 0 < s
 def WFParts : List Part → Prop
   | [] => True
